@@ -18,6 +18,7 @@ import SkModel.ParStore
 import SkModel.Runner
 import SkModel.Collect
 import SkModel.Catalog
+import SkModel.Cache
 import SkModel.Spec.Lines
 
 open Lean Sk
@@ -598,10 +599,61 @@ def runCatalogCase (j : Json) : Json :=
               ("entries", Json.arr (es.map fun p => Json.arr #[Json.str p.1, toJson p.2]).toArray),
               ("expansions", Json.arr expansions.toArray)]
 
+/-! ### Cache (C19): validate the critical-section trace of real processes -/
+
+def toCOp (j : Json) : COp :=
+  let a := asArr j
+  match asStr (a.getD 0 .null) with
+  | "set" => .set (asNat (a.getD 1 .null)) (asStr (a.getD 2 .null))
+  | "bulk" => .bulkSet ((asArr (a.getD 1 .null)).toList.map fun e =>
+      let b := asArr e; (asNat (b.getD 0 .null), asStr (b.getD 1 .null)))
+  | "unset" => .unset (asNat (a.getD 1 .null))
+  | _ => .get (asNat (a.getD 1 .null))
+
+partial def drainAccesses (s : CacheSt) (p : Nat) : CacheSt :=
+  match cacheStep s (.access p) with
+  | some s' => drainAccesses s' p
+  | none => s
+
+def runCacheCase (j : Json) : Json :=
+  let progsA := (arrF j "progs").map fun pr => (asArr pr).toList.map toCOp
+  let s0 := CacheSt.init (fun p => progsA.getD p [])
+  let evs := (arrF j "events").toList
+  let rec go (s : CacheSt) (evs : List Json) (i : Nat) : CacheSt × Option (Nat × String) :=
+    match evs with
+    | [] => (s, none)
+    | e :: rest =>
+      let a := asArr e
+      let p := asNat (a.getD 1 .null)
+      match asStr (a.getD 0 .null) with
+      | "acq" =>
+        (match cacheStep s (.acquire p) with
+         | some s' => go (drainAccesses s' p) rest (i + 1)
+         | none => (s, some (i, s!"process {p} enters its critical section while the model's lock is held by {s.lock} (or it has nothing to do)")))
+      | "rel" =>
+        let ret := optStr (a.getD 2 .null)
+        let isGet := match (s.procs p).cur with | some (.get _) => true | _ => false
+        if isGet && (s.procs p).got != ret then
+          (s, some (i, s!"get of process {p} returned {ret} but the register holds {(s.procs p).got}"))
+        else
+          (match cacheStep s (.release p) with
+           | some s' => go s' rest (i + 1)
+           | none => (s, some (i, s!"release by process {p} is not an enabled step")))
+      | k => (s, some (i, s!"unknown event {k}"))
+  let (sF, bad) := go s0 evs 0
+  let replayOk := (specReplay [] sF.log).isSome
+  let keys := (sF.disk.map (·.1)).eraseDups
+  Json.mkObj [("valid", toJson bad.isNone),
+    ("at", match bad with | some (i, _) => toJson i | none => .null),
+    ("why", match bad with | some (_, w) => Json.str w | none => .null),
+    ("logLen", toJson sF.log.length), ("specReplayOk", toJson replayOk),
+    ("disk", Json.arr (keys.map fun k => Json.arr #[toJson k, optVal (sF.disk.value k)]).toArray)]
+
 def handle (j : Json) : Json :=
   match strF j "kind" with
   | "task" => Json.mkObj [("model", runTaskCase j), ("specSimple", specSimpleCase j),
                           ("specSeq", specSeqCase j), ("specGate", specGateCase j)]
+  | "cache" => Json.mkObj [("model", runCacheCase j)]
   | "catalog" => Json.mkObj [("model", runCatalogCase j)]
   | "collect" => Json.mkObj [("model", runCollectCase j)]
   | "plan" => Json.mkObj [("model", runPlanCase j)]
